@@ -203,14 +203,18 @@ UNIT_POLYS = {
     'quad': [(0, 0, 0), (3, 0, 0), (2, 2, 0), (0, 1, 0)],
     'penta': [(0, 0, 0), (2, 0, 0), (3, 1, 0), (1, 3, 0), (-1, 1, 0)],
     'hexa': [(1, 0, 0), (2, 0, 0), (3, 1, 0), (2, 2, 0), (1, 2, 0), (0, 1, 0)],
+    'wide': [(-2, F(-1, 2), 0), (2, F(-1, 2), 0), (2, F(1, 2), 0), (-2, F(1, 2), 0)],
+    'tall': [(F(-1, 2), -2, 0), (F(1, 2), -2, 0), (F(1, 2), 2, 0), (F(-1, 2), 2, 0)],
+    # coordinates -1 and -2 together: CPython hashes -1 and -2 alike, so two of these vertices have colliding Point hashes
+    'para12': [(0, 0, 0), (-1, -2, 0), (-3, -3, 0), (-2, -1, 0)],
 }
 
 # scales keep coordinates on the quarter lattice and within |x| <= ~8
 FRAME_SCALE = {'axis': F(1), 'planar': F(1, 2), 'oblique': F(1, 2), 'pyth3': F(1, 4), 'pyth7': F(1, 4), 'shear': F(1, 2)}
 
 
-def body(shape, frame='axis', origin=(0, 0, 0), perm=None):
-    f = frame_map(frame, FRAME_SCALE[frame], origin)
+def body(shape, frame='axis', origin=(0, 0, 0), perm=None, scale=None):
+    f = frame_map(frame, FRAME_SCALE[frame] * (F(scale) if scale is not None else 1), origin)
     pts = [f(p) for p in UNIT_SHAPES[shape]]
     if perm is not None:
         g = signed_perm_map(perm)
@@ -218,8 +222,8 @@ def body(shape, frame='axis', origin=(0, 0, 0), perm=None):
     return Body(pts, '%s@%s%s' % (shape, frame, '' if perm is None else '#%d' % perm))
 
 
-def polygon(shape, frame='axis', origin=(0, 0, 0), perm=None):
-    f = frame_map(frame, FRAME_SCALE[frame], origin)
+def polygon(shape, frame='axis', origin=(0, 0, 0), perm=None, scale=None):
+    f = frame_map(frame, FRAME_SCALE[frame] * (F(scale) if scale is not None else 1), origin)
     pts = [f(p) for p in UNIT_POLYS[shape]]
     if perm is not None:
         g = signed_perm_map(perm)
